@@ -62,6 +62,8 @@ Record kase := {
   k_rawpath : bytes;
   k_escaped : bytes;                  (* URL.EscapedPath() *)
   k_query : bytes;                    (* URL.RawQuery *)
+  k_rec_params : list param;          (* c.params after the non-lazy lookup for the request's method (verif export) *)
+  k_rec_tsr : list param;             (* c.tsrParams after it *)
   k_obs : option observed             (* None = ServeHTTP panicked *)
 }.
 
@@ -80,23 +82,15 @@ Definition k_request (k : kase) : request :=
 Definition cleanfn (p : bytes) : cres :=
   match Model.cleanpath p with Model.Ok o => COk o | Model.Panic => CPanic | Model.OutOfFuel => CFuel end.
 
-(* contents of the pooled context and of the slices the matcher does not
-   report: arbitrary; a sentinel makes any leak visible *)
+(* contents of the pooled context: arbitrary; a sentinel makes any leak visible *)
 Definition sentinel : list param := [(S2B "<stale>", S2B "<stale>")].
 Definition stale_rt : rt := {| rt_method := S2B "<stale>"; rt_pattern := S2B "<stale>"; rt_ign := false; rt_red := false |}.
 Definition c0 : ctx rt :=
   {| c_route := Some stale_rt; c_tsr := true; c_params := sentinel; c_tsrParams := sentinel; c_scope := OptionsHandler |}.
 
-Definition rec_of (k : kase) : list param * list param :=
-  match assoc (k_method k) (k_table k) with
-  | Some (_, false, ps) => (ps, sentinel)
-  | Some (_, true, ps) => (sentinel, ps)
-  | None => (sentinel, sentinel)
-  end.
-
 Definition run_model (k : kase) : result rt :=
   serve_http rt_ign rt_red cleanfn (k_opts k) (k_roots k) (k_lookup k) (k_request k) c0
-             (fst (rec_of k)) (snd (rec_of k)).
+             (k_rec_params k) (k_rec_tsr k).
 
 Fixpoint join_comma (l : list bytes) : bytes :=
   match l with
